@@ -10,6 +10,7 @@ mod evidence;
 mod interp;
 mod jgen;
 mod persist;
+mod procsrv;
 mod model;
 mod ops;
 mod props;
@@ -25,6 +26,10 @@ fn usage() -> ! {
 }
 
 fn main() {
+    if std::env::args().nth(1).as_deref() == Some("serve") {
+        // child process of the process engine: the server binary's main, configured by its environment
+        std::process::exit(procsrv::serve());
+    }
     // the code under test reads WORTERBUCH_* variables in Config::new: start from a clean slate
     let vars: Vec<String> = std::env::vars().map(|(k, _)| k).filter(|k| k.starts_with("WORTERBUCH_")).collect();
     for v in vars {
